@@ -77,6 +77,21 @@ class Workload:
                 world.behaviours[("post", "t")] = {"kind": "terminal"}
         return wf
 
+    def decoy_workflow(self):
+        """Same ref_ids, other shape: 'nodeps' = every stage a root, 'chain' = one total order (reversed)."""
+        from stabilize import StageExecution, TaskExecution, Workflow
+
+        refs = [s.ref for s in self.stages]
+        if self.decoy == "chain":
+            refs = list(reversed(refs))
+        stages = []
+        for i, r in enumerate(refs):
+            deps = {refs[i - 1]} if (self.decoy == "chain" and i) else set()
+            stages.append(StageExecution(ref_id=r, name=r, type="v", requisite_stage_ref_ids=deps,
+                                         tasks=[TaskExecution.create(name="t", implementing_class="v_t", stage_start=True,
+                                                                     stage_end=True)]))
+        return Workflow.create(application="verif-decoy", name="decoy", stages=stages)
+
     # static graph helpers used by oracles ---------------------------------
     def spec(self, ref):
         for s in self.stages:
@@ -159,6 +174,21 @@ def poll(k=2):
     return Workload(f"poll{k}", [St("A", tasks=[("t", {"kind": "poll", "k": k, "out": std_out("A")})]), St("B", ("A",))])
 
 
+def with_decoy(kind, name, *args):
+    """The named workload, run in a store that also holds an older bystander workflow with the same ref_ids."""
+    w = globals()[name](*args)
+    w.decoy = kind
+    w.name = f"{w.name}+decoy-{kind}"
+    return w
+
+
+def slow_branch(k=5):
+    """A -> B (a task that reports RUNNING k times before it finishes) ; A -> C (quick leaf): C's completion makes
+    CompleteWorkflow poll while B is still in flight, k re-queues in a row."""
+    return Workload(f"slow_branch{k}", [St("A"), St("B", ("A",), tasks=[("t", {"kind": "poll", "k": k, "out": std_out("B")})]),
+                                        St("C", ("A",))])
+
+
 def transient(k=1, ctx=True, pos=0, ntasks=1, sibling=False):
     tasks = []
     for i in range(ntasks):
@@ -232,6 +262,17 @@ def jump_self_partial(times=1):
         [St("A", tasks=[("t", {"kind": "jump", "target": "A", "times": times, "out": _loop_out("A", "A"),
                                "jump_out": {"partial": ("iter",)}})]),
          St("Z", ("A",), tasks=[("t", {"kind": "ok", "out": _loop_out("Z", "A")})])],
+    )
+
+
+def jump_two_targets():
+    """A -> B -> C -> Z ; C jumps first to B, then (next time round) to A."""
+    mk = lambda r: [("t", {"kind": "ok", "out": _loop_out(r, "A")})]  # noqa: E731
+    return Workload(
+        "jump_two_targets",
+        [St("A", tasks=mk("A")), St("B", ("A",), tasks=mk("B")),
+         St("C", ("B",), tasks=[("t", {"kind": "jump", "target": ["B", "A"], "times": 2, "out": _loop_out("C", "A")})]),
+         St("Z", ("C",), tasks=mk("Z"))],
     )
 
 
@@ -401,6 +442,17 @@ def synthetic_raise():
     return Workload("synthetic_raise", [St("A"), St("S", ("A",), type="vsyn_raise"), St("Z", ("S",))], klass="racy")
 
 
+def synthetic_gate():
+    """A -> S(type vsyn_gate: no own task, one builder-planned before-stage 'pre') -> Z."""
+    return Workload("synthetic_gate", [St("A"), St("S", ("A",), type="vsyn_gate", tasks=[]), St("Z", ("S",))])
+
+
+def synthetic_multitask():
+    """A -> S(type vsyn: before-stage 'pre', TWO own tasks, after-stage 'post') -> Z."""
+    t = [("t1", {"kind": "ok", "out": {"x1": ("const", 1)}}), ("t2", {"kind": "ok", "out": {"x2": ("const", 2)}})]
+    return Workload("synthetic_multitask", [St("A"), St("S", ("A",), type="vsyn", tasks=t), St("Z", ("S",))])
+
+
 def synthetic2():
     """A -> S(type vsyn2: two PARALLEL before-stages pre1, pre2, own task) -> Z."""
     return Workload("synthetic2", [St("A"), St("S", ("A",), type="vsyn2"), St("Z", ("S",))])
@@ -452,9 +504,23 @@ def register_builders(world):
         def after_stages(self, stage, graph):
             pass
 
+    class VSynGateBuilder(VSynBuilder):
+        """a stage with no task of its own: all its work is the before-stage its builder plans"""
+
+        @property
+        def type(self):
+            return "vsyn_gate"
+
+        def build_tasks(self, stage):
+            return []
+
+        def after_stages(self, stage, graph):
+            pass
+
     get_default_factory().register(VSynBuilder())
     get_default_factory().register(VSyn2Builder())
     get_default_factory().register(VSynRaiseBuilder())
+    get_default_factory().register(VSynGateBuilder())
     for n in ("pre1", "pre2"):
         world.behaviours.setdefault((n, "t"), {"kind": "ok", "out": {f"o_{n}": ("name",)}})
     world.behaviours.setdefault(("pre", "t"), {"kind": "ok", "out": {"o_pre": ("name",)}})
